@@ -16,9 +16,9 @@ def gen(rng, n):
         names = [str(i) for i in range(n)]
         edges = {}
         for i, a in enumerate(names):
-            k = rng.choice([0, 1, 1, 2, 2, 2]) if i else rng.choice([1, 2])
+            k = rng.choice([0, 1, 1, 2, 2, 2] + ([3, 3] if os.environ.get("FUZZ_K3") else [])) if i else rng.choice([1, 2])
             cands = names[1:]
-            if rng.random() < 0.85:
+            if rng.random() < (0.5 if os.environ.get("FUZZ_K3") else 0.85):
                 cands = [c for c in cands if c != a]
             k = min(k, len(cands))
             edges[a] = rng.sample(cands, k)
